@@ -11,7 +11,7 @@ UNITS = {
     'util': 'smart_quoter, push_checked, SplittedString accessors, split_spec lemmas, character classes',
     'phon': 'PhoneticSuggestion::{add_suffix_to_suggestions, suggest_only_phonetic, suggestion_with_dict, suggest, get_prev_selection}',
     'pmeth': 'PhoneticMethod under an adversarial environment (new, key, backspace, commit, update_engine)',
-    'data': 'Data::new: the bundled tables are a function of the data directory alone; Data::find_suffix / search_corrected are the look-ups in those tables',
+    'data': 'Data::new: the bundled tables are a function of the data directory alone; Data::find_suffix / search_corrected / get_words_for are the look-ups in those tables',
     'split': 'SplittedString::split (the real three-way split: find + right-to-left char_indices scan + split_at) against split_spec',
     'fixed_search': 'search_dictionary + clean_string: the real fixed-method dictionary search (first-letter table, cleaned key, pattern, filter / map closures incl. the traditional-joining loop, extend) against sd_list',
     'layout_get': 'Layout::layout_get_value / layout_get_value_numpad: entry name, empty = none, key pad only with the option on',
@@ -138,10 +138,10 @@ PLAN = {
     'C15': {
         'bounded': ['fixed_api'], 'data': ['tables'],
         'level': 'proof',
-        'units': ['fixed_session', 'fixed_search'],
+        'units': ['fixed_session', 'fixed_search', 'data'],
         'technique': 'Verus: functional postcondition list == fx_list(text, raw keys, options, data) for create_dictionary_suggestion, with lemma 1 <= len <= 9',
         'claim': 'Proof that the fixed-method list is exactly: First(word) + dictionary matches, adjacent duplicates removed, wrapped in the (curled) punctuation, emoji added, sorted, cut to nine (eight + raw keys when English is on and the text differs from the keys), for all inputs.  Statement clauses at spec level (lemma_c15_list over that function): the first candidate is the composed text with curling applied (the only First-ranked item, whatever the unstable sort does with ties), non-emoji candidates are in non-decreasing rank number (10 x distance), the raw key text is last when English is on and the text differs from the keys, between one and nine candidates.',
-        'note': COMMON_TRUST + 'search_dictionary and clean_string are PROVED in unit fixed_search on the real body (fx_dict is defined as sd_list: the words of the first-letter table, in table order, that the pattern ^<cleaned key>[letters]{0,n}$ matches, each as Other(form, 10 x edit distance from the typed word), form = non-joiner before every u / uu / ri sign with traditional joining); lemma_sd_list_sound: every such candidate is a dictionary word that begins with the typed word once the ignored punctuation is removed.  Assumed there (T3): the regex crate (a cleaned key gives a pattern that compiles; a match of the anchored pattern has the key as a prefix -- stated for the pinned format string only), the edit-distance crate, Data::get_words_for, Vec::extend over a Map drains it and applies the closure in order, chars().any as a same-bodied wrapper; data precondition: 10 x distance of a hit fits u8.  The bounded check fixed_api stays as an independent cross-check of these assumptions (regex-special punctuation inside the word, hasanta-final words); ordering rests on one axiom about std sort_unstable (sorted permutation w.r.t. the proved comparator key; nothing assumed about ties) + data preconditions (distance <= 25, at most nine emoji per Bengali name).',
+        'note': COMMON_TRUST + 'search_dictionary and clean_string are PROVED in unit fixed_search on the real body (fx_dict is defined as sd_list: the words of the first-letter table, in table order, that the pattern ^<cleaned key>[letters]{0,n}$ matches, each as Other(form, 10 x edit distance from the typed word), form = non-joiner before every u / uu / ri sign with traditional joining); lemma_sd_list_sound: every such candidate is a dictionary word that begins with the typed word once the ignored punctuation is removed.  Assumed there (T3): the regex crate (a cleaned key gives a pattern that compiles; a match of the anchored pattern has the key as a prefix -- stated for the pinned format string only), the edit-distance crate, Vec::extend over a Map drains it and applies the closure in order, chars().any as a same-bodied wrapper; data precondition: 10 x distance of a hit fits u8.  The bounded check fixed_api stays as an independent cross-check of these assumptions (regex-special punctuation inside the word, hasanta-final words); ordering rests on one axiom about std sort_unstable (sorted permutation w.r.t. the proved comparator key; nothing assumed about ties) + data preconditions (distance <= 25, at most nine emoji per Bengali name).',
     },
     'C16': {
         'bounded': ['ansi', 'fixed_api', 'phonetic_api', 'update_engine'],
